@@ -1578,6 +1578,23 @@ impl VirtualFileSystem for Memfs {
         let dst_root = self._abs(&guard, dst)?;
         let copy_into = self._is_dir(&guard, &dst_root);
 
+        // Validate everything up front so that a failed move leaves the filesystem untouched
+        if !guard.contains_entry(&src_root) {
+            return Err(PathError::does_not_exist(src_root).into());
+        }
+        let dst_first = if copy_into { dst_root.mash(src_root.trim_prefix(src_root.dir()?)) } else { dst_root.clone() };
+        if dst_first.starts_with(&src_root) && dst_first != src_root {
+            // the destination is inside the tree being moved: its parent will not exist anymore
+            return Err(PathError::parent_not_found(dst_first.dir()?).into());
+        }
+        let parent_is_dir = match guard.get_entry(&dst_first.dir()?) {
+            Some(parent) => parent.is_dir(),
+            None => false,
+        };
+        if !parent_is_dir {
+            return Err(PathError::parent_not_found(dst_first.dir()?).into());
+        }
+
         let mut paths = vec![src_root.clone()];
         while let Some(src_path) = paths.pop() {
             let dst_path = if copy_into {
